@@ -282,6 +282,12 @@ class C11(Prop):
             v = plain(self.r_tree(rng, rng.choice([1, 2, 3]), root=True))
             v = plant_floats(rng, v, hard)
             out.append({"stream": "tojson_f", "tag": "floats", "input": {"tree": v, "opts": self.r_opts(rng)}})
+        # ---- values in which one container object occurs at several places (a DAG, no cycle): [[0, 0]] * 3, a default
+        #      record assigned to two keys.  It decodes like the tree with the shared part written out at each place.
+        for _ in range(100 if quick else 4000):
+            v = plain(self.r_tree(rng, rng.choice([2, 3]), root=True))
+            out.append({"stream": "tojson_f", "tag": "shared", "input": {"tree": v, "opts": self.r_opts(rng),
+                                                                         "share": [rng.random(), rng.random(), rng.randint(1, 2)]}})
         # ---- loading -------------------------------------------------------------------------
         nl = 300 if quick else 15000
         for _ in range(nl):
@@ -332,6 +338,42 @@ class C11(Prop):
             return self.n0list([self.wrap_all(x) for x in v])
         return v
 
+    @staticmethod
+    def _containers(node, acc):
+        if isinstance(node, dict):
+            acc.append(node)
+            for v in dict.values(node):
+                C11._containers(v, acc)
+        elif isinstance(node, list):
+            acc.append(node)
+            for v in list.__iter__(node):
+                C11._containers(v, acc)
+        return acc
+
+    def alias(self, x, share):
+        """make one container of x occur again (1-2 more times) in another container that is not inside it; returns the
+        plain value the result is equal to"""
+        cs = self._containers(x, [])
+        inner = cs[1:]
+        if inner:
+            c = inner[int(share[0] * len(inner)) % len(inner)]
+            below = {id(n) for n in self._containers(c, [])}
+            hosts = [h for h in cs if id(h) not in below]
+            h = hosts[int(share[1] * len(hosts)) % len(hosts)]
+            for n in range(share[2]):
+                if isinstance(h, dict):
+                    dict.__setitem__(h, "dup%d" % n, c)
+                else:
+                    list.append(h, c)
+
+        def pl(v):
+            if isinstance(v, dict):
+                return {k: pl(w) for k, w in dict.items(v)}
+            if isinstance(v, list):
+                return [pl(w) for w in list.__iter__(v)]
+            return v
+        return pl(x)
+
     def parsed(self, text):
         try:
             return ("ok", json.loads(text.strip()))
@@ -343,6 +385,8 @@ class C11(Prop):
         if case["stream"] == "tojson_f":
             o = i["opts"]
             x = self.wrap_all(i["tree"])      # the same construction as the main stream (n0dict(d) / n0list(l) at every level)
+            if i.get("share"):
+                i["_expect"] = self.alias(x, i["share"])
             s = x.to_json(indent=o["indent"], pairs_in_one_line=o["pairs"], compress=o["compress"],
                           skip_empty_arrays=o["skip"])
             if not isinstance(s, str):
@@ -395,7 +439,7 @@ class C11(Prop):
             if "raise" in obs:
                 return "to_json raised %s" % obs.get("exc", obs["raise"])
             text = obs["ok"][1]
-            want = plain(i["tree"]) if case["stream"] == "tojson" else copy.deepcopy(i["tree"])
+            want = plain(i["tree"]) if case["stream"] == "tojson" else i.pop("_expect", None) or copy.deepcopy(i["tree"])
             if i["opts"]["skip"]:
                 p = prune(want)
                 want = type(want)() if p is DROP else p
